@@ -190,3 +190,10 @@ def make_plan(pid, tier, seed, mix, quick_n, thorough_n, ntops=(1,), extra=None)
     for _ in range(n):
         cases.append(coregen.gen_case(rng, rng.choice(profs), ntops=rng.choice(ntops)))
     return cases
+
+
+def on_crash_terminates(r, v):
+    """C03 / C08: a computation of the model language always terminates - a hang of the implementation is a failing input"""
+    if r.get("hang"):
+        v = dict(v, spec="fail:computation-does-not-terminate")
+    return v
